@@ -7,6 +7,6 @@ for a in "$@"; do
   prev="$a"
 done
 case "$crate" in
-  ant_*|evmlib|autonomi|antnode|antctl) exec "$rustc" "$@" -C instrument-coverage ;;
+  ant_*|evmlib|autonomi|antnode|antctl|vh_*) exec "$rustc" "$@" -C instrument-coverage ;;
 esac
 exec "$rustc" "$@"
